@@ -7,6 +7,7 @@ import (
 	"fmt"
 	"sort"
 	"sync"
+	"sync/atomic"
 	"testing"
 	"time"
 
@@ -20,6 +21,9 @@ import (
 const grid = time.Second
 
 var t0 = time.Date(2030, 1, 1, 0, 0, 0, 0, time.UTC)
+
+// lossesSeen counts lost-report violations of this run (only shortens later watchdog waits).
+var lossesSeen atomic.Int32
 
 type report struct {
 	Duty  core.Duty
@@ -168,11 +172,13 @@ func runCase(c *kit.Case) {
 		for _, rp := range reports {
 			reps = append(reps, fmt.Sprintf("%v@+%v", rp.Duty, rp.Clock.Sub(t0)))
 		}
+		tr := append([]opRec(nil), trace...) // trace is shared by concurrent adders
 		mu.Unlock()
-		c.Violation(sig, what, map[string]any{"mode": mode, "trace": trace, "reports": reps})
+		c.Violation(sig, what, map[string]any{"mode": mode, "trace": tr, "reports": reps})
 	}
 
 	inconclusive := false
+	lost := false // a loss was reported: the case ends there (the model no longer matches)
 	settle := func() bool {
 		for i := 0; i < 2; i++ {
 			if st := dl.Add(probe); st != core.DeadlineExempt {
@@ -206,13 +212,19 @@ func runCase(c *kit.Case) {
 			}
 		}
 		expected += len(due)
-		ok := kit.WaitUntil(5*time.Second, func() bool { return received() >= expected && len(dl.C()) == 0 })
+		// (the wait is a watchdog for the consumer goroutine, not the verdict: the verdict is taken after
+		// settle() showed the deadliner idle; once a run has demonstrated losses it no longer pays 10 s each)
+		wait := 5 * time.Second
+		if lossesSeen.Load() >= 3 {
+			wait = 300 * time.Millisecond
+		}
+		ok := kit.WaitUntil(wait, func() bool { return received() >= expected && len(dl.C()) == 0 })
 		if !ok {
 			// causal re-check: loop idle (timer re-armed), channel empty, consumer idle
 			if !settle() {
 				return
 			}
-			ok = kit.WaitUntil(5*time.Second, func() bool { return received() >= expected && len(dl.C()) == 0 })
+			ok = kit.WaitUntil(wait, func() bool { return received() >= expected && len(dl.C()) == 0 })
 		}
 		mu.Lock()
 		reps := append([]report(nil), reports...)
@@ -258,6 +270,8 @@ func runCase(c *kit.Case) {
 					sig = "deadliner/lost-report/more-than-buffer-due-at-once"
 				}
 				fail(sig, fmt.Sprintf("%d of %d due duties never reported to a reading consumer (deadliner idle, channel empty): %v", len(missing), len(due), missing))
+				lossesSeen.Add(1)
+				lost = true
 				for _, d := range due {
 					delete(m.pending, d)
 				}
@@ -286,7 +300,7 @@ func runCase(c *kit.Case) {
 			r.Count("adds_exempt", 1)
 			return
 		}
-		allowSch := !dd.Before(nowLo)                // deadline >= earliest possible now
+		allowSch := !dd.Before(nowLo)                   // deadline >= earliest possible now
 		allowExp := dd.Before(nowHi) || dd.Equal(nowHi) // deadline <= latest possible now (== : either, see DESIGN)
 		switch st {
 		case core.DeadlineScheduled:
@@ -336,7 +350,7 @@ func runCase(c *kit.Case) {
 
 	nOps := 10 + rng.Intn(40)
 	var opHash []any
-	for i := 0; i < nOps && !inconclusive; i++ {
+	for i := 0; i < nOps && !inconclusive && !lost; i++ {
 		now := clock.Now()
 		switch k := rng.Intn(10); {
 		case k < 5: // single add
@@ -434,7 +448,7 @@ func runCase(c *kit.Case) {
 			validate()
 		}
 	}
-	if !inconclusive {
+	if !inconclusive && !lost {
 		// final: move past every deadline; everything pending must be reported exactly once
 		if settle() {
 			if mode == "burst" {
@@ -450,10 +464,13 @@ func runCase(c *kit.Case) {
 						break
 					}
 					validate()
+					if lost {
+						break
+					}
 				}
 			}
 		}
-		if !inconclusive && len(m.pending) != 0 {
+		if !inconclusive && !lost && len(m.pending) != 0 {
 			fail("deadliner/lost-report", fmt.Sprintf("%d duties still pending after the clock passed every deadline", len(m.pending)))
 		}
 	}
